@@ -5,6 +5,15 @@ sys.path.insert(0, os.path.dirname(os.path.abspath(__file__)))
 sys.path.insert(0, os.environ.get('QBEE_REPO', '/repo'))
 from contracts import meta
 
+NOT_APPLICABLE = {
+    'C14': 'contract-based deductive verification does not apply: spelling, spacing, comments and statement separators are '
+           'carried entirely by the pyparsing grammar (CaselessKeyword, regexes, look-aheads, colon[1, ...]), which is data '
+           'interpreted by a third-party engine, not functions with bodies to put pre/postconditions on; a contract '
+           '"parse(rewrite(s)) is parse(s)" could only be discharged by modelling pyparsing. Deciding it needs metamorphic / '
+           'translation validation, a different family (DESIGN.md section 8).',
+}
+
+
 props = [json.loads(l) for l in open(os.path.join(os.path.dirname(__file__), 'properties.jsonl'))]
 checks = []
 na = []
@@ -12,7 +21,7 @@ for p in props:
     pid = p['id']
     m = meta.PROPS.get(pid)
     if m is None or m.get('not_applicable'):
-        na.append({'property_id': pid, 'reason': (m or {}).get('not_applicable', 'check not built yet (see DESIGN.md section 11)')})
+        na.append({'property_id': pid, 'reason': (m or {}).get('not_applicable', NOT_APPLICABLE.get(pid, 'no contract within reach of the technique (see DESIGN.md section 8)'))})
         continue
     checks.append({
         'property_id': pid,
@@ -21,7 +30,7 @@ for p in props:
         'evidence_file': f'evidence/{pid}.json',
         'replay_cmd_template': f'./check {pid} --replay {{path}}',
         'engine': 'pyvc',
-        'level_claimed': {'category': m['level'], 'text': m['explanation'], 'design_ref': m.get('design_ref', f'DESIGN.md section 7 ({pid})')},
+        'level_claimed': {'category': m['level'], 'text': m['explanation'], 'design_ref': m.get('design_ref', f'DESIGN.md section 6 ({pid})')},
         'level_note': '; '.join(m.get('assumptions', []) + ['not covered: ' + ', '.join(m.get('not_covered', []))]),
         'technique': m['technique'],
     })
